@@ -79,6 +79,10 @@ pub fn raw_variant(s: Variant, case: &dyn Fn() -> Value, st: &mut Stats) {
 }
 
 pub fn check_value(loc: &Locale, case: &Value, st: &mut Stats, mode: Count) {
+    netted(st, || case.clone(), crate::values::case_size(case), |st| check_value_inner(loc, case, st, mode));
+}
+
+fn check_value_inner(loc: &Locale, case: &Value, st: &mut Stats, mode: Count) {
     st.eval();
     let size = case_size(case);
     if loc.id.variants().len() > 0 || !loc.extensions.is_empty() {
